@@ -55,6 +55,14 @@ theorem wf_token (mx ini : Nat) (h : ini ≤ mx) :
          minLimit := 0, maxLimit := 0 } :=
   ⟨by simp; omega, by simp, by intro r hr; simp at hr ⊢; subst hr; simp⟩
 
+/-- … for EVERY pair of arguments: the constructor clamps the initial balance to the burst capacity, so no configuration
+of the token bucket is excluded by `WF`. (On the pinned tree it did not clamp: a bucket built with `initial_tokens >
+max_tokens` started above its maximum, and a deposit then *lowered* the balance to the maximum.) -/
+theorem wf_token_all (mx ini : Nat) :
+    WF { aimd := false, cost := 1000, amount := 1000, maxTokens := mx * 1000, initial := min ini mx * 1000,
+         minLimit := 0, maxLimit := 0 } :=
+  wf_token mx (min ini mx) (Nat.min_le_right _ _)
+
 /-- the AIMD constructor yields well-formed configurations when `min ≤ max` and the decrease factor is ≤ 1 -/
 theorem wf_aimd (mn mx dep wd fnum fden : Nat) (h1 : mn ≤ mx) (h2 : fnum ≤ fden) (h3 : fden > 0) :
     WF { aimd := true, cost := wd, amount := dep, maxTokens := mx, initial := mx, minLimit := mn, maxLimit := mx,
